@@ -138,11 +138,18 @@ class Check(PropertyCheck):
             jobs2, h2 = copy.deepcopy(jobs), list(h1)
             field = "none"
             if not same:
-                field = rng.choice(["other_history", "prefix", "dur", "dur_unscheduled", "dur_unscheduled"])
+                field = rng.choice(["other_history", "prefix", "dur", "dur_unscheduled", "dur_unscheduled", "extended", "extended"])
                 if field == "other_history":
                     h2 = hist(jobs)
                 elif field == "prefix":
                     h2 = h1[:-3]
+                elif field == "extended":
+                    # a COMPLETE schedule of one instance and the same history on an instance that has more to do (one more job, or
+                    # one more operation at the end of the last job): the same lists, another problem - compared both ways
+                    if rng.random() < 0.5:
+                        jobs2.append([([0], rng.randint(1, 4))])
+                    else:
+                        jobs2[-1] = jobs2[-1] + [([0], rng.randint(1, 4))]
                 elif field == "dur_unscheduled":
                     # the same PARTIAL (possibly empty) history on two instances that differ in an operation not scheduled yet
                     keep = rng.randint(0, max(0, len(h1) // 3 - 1))
